@@ -869,6 +869,7 @@ def _pdr_map(sess):
 def mon_c12(case, obs, prefix):
     bad = []
     have = {}      # UP SEID -> URR ids created and not removed, tracked from the requests alone
+    plist = {}     # UP SEID -> {PDR id: URR ids of the list the SMF last gave for it}, tracked from the requests alone
     for i, ev, o, prev, prev_dp, dup in walk(case, obs, prefix):
         if o.get("fault"):
             bad.append((i, "fault: " + o["fault"]))
@@ -887,7 +888,35 @@ def mon_c12(case, obs, prefix):
             elif live(prev, ev["msg"]["seid"]) is not None and live(d, ev["msg"]["seid"]) is not None and \
                     any(x["type"] == "modrsp" and x["cause"] == 1 for x in (o["sends"] or [])):
                 lids = [ev["msg"]["seid"]]      # the request was executed (an undecodable Node ID, e.g., makes the handler drop it)
+            if ev["msg"]["k"] == "mod" and not lids and ev["msg"]["seid"] in plist:
+                plist[ev["msg"]["seid"]] = {}       # rejected / dropped half-way: which PDR operations ran is not asserted
             for l in lids:
+                # --- independent PDR -> URR lists: what the SMF last gave for each PDR (only where that is certain)
+                pl = plist.setdefault(l, {})
+                if ev["msg"]["k"] == "est" or o.get("panicked"):
+                    pl.clear()
+                if not o.get("panicked"):
+                    sprev = live(prev, l) if ev["msg"]["k"] == "mod" else None
+                    pm_prev = _pdr_map(sprev) if sprev else {}
+                    indp_prev = {(r[1], r[2]) for r in prev_dp if r[0] == l} if ev["msg"]["k"] == "mod" else set()
+                    named = [(kd, (p_ if kd == "rPDR" else (p_ or {}).get("id")), p_) for kd in ("cPDR", "uPDR", "rPDR") for p_ in (ops_.get(kd) or [])]
+                    for kd, pid, p_ in named:
+                        if pid is None:
+                            continue
+                        if sum(1 for _, q, _ in named if q == pid) > 1 or (kd != "rPDR" and any(x is None for x in (p_.get("urrs") or []))):
+                            pl.pop(pid, None)
+                        elif kd == "cPDR":
+                            if ("create", "pdr", pid) in fl or pid in pm_prev or (KIDX["pdr"], pid) in indp_prev:
+                                pl.pop(pid, None)
+                            else:
+                                pl[pid] = set(p_.get("urrs") or [])
+                        elif kd == "uPDR":
+                            if ("update", "pdr", pid) in fl or (KIDX["pdr"], pid) not in indp_prev:
+                                pl.pop(pid, None)
+                            elif p_.get("urrs") and pid in pl:
+                                pl[pid] = set(p_["urrs"])
+                        else:
+                            pl.pop(pid, None)
                 cur = have.setdefault(l, set())
                 for u in ops_.get("cURR", []) or []:
                     if u.get("id") is not None and ("create", "urr", u["id"]) not in fl:
@@ -908,6 +937,17 @@ def mon_c12(case, obs, prefix):
                     bad.append((i, "URR %d of session %d, created by the SMF and never removed, is no longer known to the session: "
                                    "its removal or the session's deletion cannot return its final usage" % (u, l)))
                     have[l].discard(u)
+        for l in list(plist):
+            sl = live(d, l)
+            if sl is None:
+                del plist[l]
+                continue
+            pm = _pdr_map(sl)
+            for pid, want_ in sorted(plist[l].items()):
+                if pid in pm and pm[pid] != want_:
+                    bad.append((i, "session %d: PDR %d is recorded as referring to URRs %s, the SMF's current URR list for it is %s"
+                                   % (l, pid, sorted(pm[pid]), sorted(want_))))
+                    del plist[l][pid]
         for idx, s in enumerate(d["slots"] or []):
             if s is None:
                 continue
@@ -1261,7 +1301,24 @@ def directed_c12(rnd):
                    "ops": {"cURR": [{"id": 7, "method": 2, "info": 0}], "cPDR": [{"id": 1, "urrs": [7], "ueip": False}]}}),
         _rc(0, 3, {"k": "mod", "seid": 1, "nid": {"absent": True}, "ops": {"cPDR": [{"id": 1, "urrs": [7], "ueip": False}]}}),
         _rc(0, 4, {"k": "mod", "seid": 1, "nid": {"absent": True}, "ops": {"rPDR": [1]}},
-            usage=[{"op": "query", "id": 7, "rpts": [{"urr": 7, "trig": 0, "vflags": 0, "cnt": [1, 2, 3, 4, 5, 6], "dur": 0, "start": 1, "end": 2}]}])]}]
+            usage=[{"op": "query", "id": 7, "rpts": [{"urr": 7, "trig": 0, "vflags": 0, "cnt": [1, 2, 3, 4, 5, 6], "dur": 0, "start": 1, "end": 2}]}])]}] + [
+        # a PDR is pointed (Update PDR / Create PDR) at a URR the session does not hold YET; the URR is created by a later
+        # request; the PDR is then removed / re-pointed: it was the URR's only referrer, so its usage comes back once, as a
+        # termination report (a URR counts as referenced by the PDRs whose current list names it, however that came about)
+        {"maxretrans": 0, "txseq0": 0, "events": [
+            _rc(0, 1, {"k": "asr", "nid": {"v": 0}}),
+            _rc(0, 2, {"k": "est", "nid": {"v": 0}, "fseid": {"v": 10},
+                       "ops": {"cURR": [{"id": 3, "method": 2, "info": 0}], "cPDR": [{"id": 1, "urrs": [3] if first == "create7" else [], "ueip": False},
+                                                                                       {"id": 2, "urrs": [3], "ueip": False}]}}),
+            _rc(0, 3, {"k": "mod", "seid": 1, "nid": {"absent": True},
+                       "ops": ({"cPDR": [{"id": 4, "urrs": [7, 3], "ueip": False}]} if first == "create7" else {"uPDR": [{"id": 1, "urrs": [7], "ueip": False}]})}),
+            _rc(0, 4, {"k": "mod", "seid": 1, "nid": {"absent": True}, "ops": {"cURR": [{"id": 7, "method": 2, "info": 0}]}}),
+            _rc(0, 5, {"k": "mod", "seid": 1, "nid": {"absent": True},
+                       "ops": ({"rPDR": [4 if first == "create7" else 1]} if last == "remove" else {"uPDR": [{"id": 4 if first == "create7" else 1, "urrs": [3], "ueip": False}]})},
+                usage=[{"op": "query", "id": 7, "rpts": [{"urr": 7, "trig": 0, "vflags": 0, "cnt": [1, 2, 3, 4, 5, 6], "dur": 0, "start": 1, "end": 2}]}]),
+            _rc(0, 6, {"k": "mod", "seid": 1, "nid": {"absent": True}, "ops": {"rURR": [7]}},
+                usage=[{"op": "remove", "id": 7, "rpts": [{"urr": 7, "trig": 0, "vflags": 0, "cnt": [2, 2, 3, 4, 5, 6], "dur": 0, "start": 2, "end": 3}]}])]}
+        for first in ("update7", "create7") for last in ("remove", "repoint")]
 
 
 def directed_c13(rnd):
